@@ -11,7 +11,6 @@ import (
 	"math"
 	"os"
 	"path/filepath"
-	"sort"
 	"strconv"
 	"strings"
 	"testing"
@@ -142,9 +141,9 @@ func (cs *recCase) valid() error {
 func sidOf(i int) string { return "s" + strconv.Itoa(i) }
 func grpOf(i int) string { return "g" + strconv.Itoa(i) }
 
-func otsdbLine(cs *recCase, p recPoint) string {
+func otsdbLine(series []recSeries, p recPoint) string {
 	return fmt.Sprintf(`{"metric":%q,"timestamp":%d,"value":%s,"tags":{"sid":%q,"grp":%q}}`,
-		cs.Series[p.S].Metric, p.T, strconv.FormatFloat(p.V, 'f', -1, 64), sidOf(p.S), grpOf(p.S))
+		series[p.S].Metric, p.T, strconv.FormatFloat(p.V, 'f', -1, 64), sidOf(p.S), grpOf(p.S))
 }
 
 // ---- reading what a (dead or live) server left on disk -------------------------------------------
@@ -318,7 +317,7 @@ type diskState struct {
 	ttErr map[string]error
 }
 
-func readDisk(walDir string, nSeries int) (*diskState, error) {
+func readDisk(walDir string, nSeries int, extraDirs ...string) (*diskState, error) {
 	ds := &diskState{pairs: map[string]map[string]bool{}, ttErr: map[string]error{}}
 	var wanted [][2]string
 	for i := 0; i < nSeries; i++ {
@@ -331,27 +330,51 @@ func readDisk(walDir string, nSeries int) (*diskState, error) {
 	}
 	ds.names = readMNameWals(walDir)
 	ds.metas = readMetaWal(walDir)
+	dirs := append([]string(nil), extraDirs...)
 	for _, m := range ds.metas {
 		if m == nil || m.EarliestEpochSec > m.LatestEpochSec {
 			continue // segment without data
 		}
-		if _, done := ds.pairs[m.TTreeDir]; done {
+		dirs = append(dirs, m.TTreeDir)
+	}
+	for _, d := range dirs {
+		if _, done := ds.pairs[d]; done || d == "" {
 			continue
 		}
-		p, err := tagPairsOf(m.TTreeDir, wanted)
+		if _, failed := ds.ttErr[d]; failed {
+			continue
+		}
+		p, err := tagPairsOf(d, wanted)
 		if err != nil {
-			ds.ttErr[m.TTreeDir] = err
+			ds.ttErr[d] = err
 			continue
 		}
-		ds.pairs[m.TTreeDir] = p
+		ds.pairs[d] = p
 	}
 	return ds, nil
+}
+
+// tagsIn reports whether the tag trees under dir hold the two values unique to series i.
+func (ds *diskState) tagsIn(dir string, i int) bool {
+	p := ds.pairs[dir]
+	return p != nil && p["sid="+sidOf(i)] && p["grp="+grpOf(i)]
+}
+
+// metaFor reports whether the meta-entry WAL holds a usable entry for the segment whose tag trees live under dir.
+func (ds *diskState) metaFor(dir string, qs, qe uint32) bool {
+	for _, m := range ds.metas {
+		if m != nil && m.TTreeDir == dir && m.EarliestEpochSec <= m.LatestEpochSec && m.LatestEpochSec >= qs && m.EarliestEpochSec <= qe &&
+			m.TagKeys["sid"] && m.TagKeys["grp"] && len(m.TagKeys) == 2 {
+			return true
+		}
+	}
+	return false
 }
 
 // findable reports whether the segment metadata and tag trees that a selector on series i needs
 // are on disk: a logged meta entry of a non-empty segment whose tag-tree directory holds, for every
 // tag key the entry lists, the value unique to this series.
-func (ds *diskState) findable(i int, qs, qe uint32) bool {
+func (ds *diskState) findable(i int, qs, qe uint32) (string, bool) {
 	for _, m := range ds.metas {
 		if m == nil || m.EarliestEpochSec > m.LatestEpochSec || m.LatestEpochSec < qs || m.EarliestEpochSec > qe {
 			continue
@@ -364,10 +387,10 @@ func (ds *diskState) findable(i int, qs, qe uint32) bool {
 			continue
 		}
 		if p["sid="+sidOf(i)] && p["grp="+grpOf(i)] {
-			return true
+			return m.TTreeDir, true
 		}
 	}
-	return false
+	return "", false
 }
 
 func (ds *diskState) describe() string {
@@ -382,48 +405,8 @@ func (ds *diskState) describe() string {
 	return sb.String()
 }
 
-type dpKey struct {
-	tsid uint64
-	t    uint32
-}
 
-// ---- the check ------------------------------------------------------------------------------
-
-func parseSid(id string) (string, bool) {
-	i := strings.IndexByte(id, '{')
-	if i < 0 {
-		return "", false
-	}
-	for _, kv := range strings.Split(strings.TrimSuffix(id[i+1:], "}"), ",") {
-		if strings.HasPrefix(kv, "sid:") {
-			return kv[4:], true
-		}
-	}
-	return "", false
-}
-
-func mquery(c *sut.Client, text string, qs, qe uint32) (*MQueryResult, error) {
-	var mr MQueryResult
-	err := c.Call(&sut.Req{Op: "c10.mquery", Text: text, Start: uint64(qs), End: uint64(qe),
-		Ints: map[string]int64{"step": 1, "sum": 1}}, &mr)
-	return &mr, err
-}
-
-func fmtPts(m map[uint32]float64) string {
-	ts := make([]uint32, 0, len(m))
-	for t := range m {
-		ts = append(ts, t)
-	}
-	sort.Slice(ts, func(i, j int) bool { return ts[i] < ts[j] })
-	var sb strings.Builder
-	for i, t := range ts {
-		if i > 0 {
-			sb.WriteByte(' ')
-		}
-		fmt.Fprintf(&sb, "%d:%v", t, m[t])
-	}
-	return "[" + sb.String() + "]"
-}
+// ---- the check (timer driven, plain SIGKILL) ------------------------------------------------------
 
 func checkRec(cs *recCase, o *pt.Obs) error {
 	if err := cs.valid(); err != nil {
@@ -432,155 +415,25 @@ func checkRec(cs *recCase, o *pt.Obs) error {
 	dataDir := pt.NewDataDir()
 	defer pt.CleanupDataDir(dataDir)
 	opts := sut.Options{DataDir: dataDir, Env: map[string]string{"C10_TAGS_FLUSH_SECS": "1", "VERIF_LOGLEVEL": "error"}}
-	c, err := sut.Start(opts)
-	if err != nil {
-		return pt.Inconclusivef("worker start: %v", err)
-	}
-	defer func() { c.Close() }()
-	died := func(stage string, err error) error {
-		if errors.Is(err, sut.ErrWorkerDied) {
-			return fmt.Errorf("%s: server process died: %s", stage, pt.CrashDetail(c))
-		}
-		if errors.Is(err, sut.ErrTimeout) {
-			return pt.Inconclusivef("%s: %v", stage, err)
-		}
-		return pt.Inconclusivef("%s: %v", stage, err)
-	}
-	var paths map[string]string
-	if err := c.Call(&sut.Req{Op: "c10.paths"}, &paths); err != nil {
-		return died("paths", err)
-	}
-	walDir := paths["wal"]
-
-	// query window over everything the case ever sends
-	qs, qe := uint32(math.MaxUint32), uint32(0)
+	var all []recPoint
 	for _, ph := range cs.Phases {
-		for _, p := range ph.Pts {
-			if p.T < qs {
-				qs = p.T
-			}
-			if p.T > qe {
-				qe = p.T
-			}
-		}
+		all = append(all, ph.Pts...)
 	}
-	qs, qe = qs-5, qe+5
-
-	tsidOf := make([]uint64, len(cs.Series))
-	haveTsid := make([]bool, len(cs.Series))
-	sent := make([]map[uint32]float64, len(cs.Series))    // acknowledged by the ingest call
-	durable := make([]map[uint32]float64, len(cs.Series)) // in a block closed (rotated) before the kill
-	for i := range sent {
-		sent[i] = map[uint32]float64{}
-		durable[i] = map[uint32]float64{}
+	e := newRecEngine(cs.Series, all, opts, o)
+	if err := e.start(); err != nil {
+		return err
 	}
-	shardOfTsid := map[uint64]string{}
-	allNames := map[string]bool{}
-	for _, s := range cs.Series {
-		allNames[s.Metric] = true
+	defer e.close()
+	gone := func(stage string) error {
+		return fmt.Errorf("%s: server process died: %s", stage, pt.CrashDetail(e.c))
 	}
-
-	inWal := func(ds *diskState) map[dpKey][]float64 {
-		m := map[dpKey][]float64{}
-		for _, wf := range ds.wals {
-			for _, dp := range wf.dps {
-				k := dpKey{dp.Tsid, dp.Timestamp}
-				m[k] = append(m[k], dp.DpVal)
-				shardOfTsid[dp.Tsid] = wf.shard
-			}
-		}
-		return m
-	}
-
-	waitLogged := func(stage string) error {
-		deadline := time.Now().Add(8 * time.Second)
-		for {
-			ds, err := readDisk(walDir, len(cs.Series))
-			if err != nil {
-				return pt.Inconclusivef("%s: reading data dir: %v", stage, err)
-			}
-			w := inWal(ds)
-			missing := ""
-			for i := range cs.Series {
-				for t := range sent[i] {
-					if _, in := durable[i][t]; in {
-						continue
-					}
-					if len(w[dpKey{tsidOf[i], t}]) == 0 {
-						missing = fmt.Sprintf("datapoint t=%d of series %d", t, i)
-					}
-				}
-				if len(sent[i]) > 0 && !ds.findable(i, qs, qe) {
-					missing = fmt.Sprintf("segment metadata / tag trees of series %d (%s)", i, ds.describe())
-				}
-				if len(sent[i]) > 0 && !ds.names[cs.Series[i].Metric] {
-					missing = fmt.Sprintf("metric name %q", cs.Series[i].Metric)
-				}
-			}
-			if missing == "" {
-				return nil
-			}
-			if c.Dead() {
-				return fmt.Errorf("%s: server process died: %s", stage, pt.CrashDetail(c))
-			}
-			if time.Now().After(deadline) {
-				return pt.Inconclusivef("%s: not on disk within 8 s: %s", stage, missing)
-			}
-			time.Sleep(100 * time.Millisecond)
-		}
-	}
-
-	baseline := func(cl *sut.Client, stage string) error {
-		for i := range cs.Series {
-			if len(sent[i]) == 0 {
-				continue
-			}
-			mr, err := mquery(cl, fmt.Sprintf(`%s{sid=%q}`, cs.Series[i].Metric, sidOf(i)), qs, qe)
-			if err != nil {
-				return died(stage, err)
-			}
-			got := map[uint32]float64{}
-			for _, s := range mr.Series {
-				for _, p := range s.Pts {
-					got[p.T] = math.Float64frombits(p.V)
-				}
-			}
-			if mr.Err != "" || len(mr.Errors) > 0 || len(mr.Series) != 1 || fmtPts(got) != fmtPts(sent[i]) {
-				return pt.Inconclusivef("%s: before any crash the selector on series %d does not return what was sent (not a recovery matter): err=%q %v sent=%s got=%s",
-					stage, i, mr.Err, mr.Errors, fmtPts(sent[i]), fmtPts(got))
-			}
-		}
-		return nil
-	}
-
-	// ---- ingest phases -----------------------------------------------------------------------
 	for pi, ph := range cs.Phases {
-		if len(ph.Pts) > 0 {
-			lines := make([]string, len(ph.Pts))
-			for i, p := range ph.Pts {
-				lines[i] = otsdbLine(cs, p)
+		stage := fmt.Sprintf("phase %d", pi)
+		if err := e.ingest("ingest "+stage, ph.Pts, !ph.Wait); err != nil {
+			if errors.Is(err, errServerGone) {
+				return gone("ingest " + stage)
 			}
-			var ir IngestResult
-			if err := c.Call(&sut.Req{Op: "c10.ingest", Strs: lines}, &ir); err != nil {
-				return died(fmt.Sprintf("ingest phase %d", pi), err)
-			}
-			for i, p := range ph.Pts {
-				if ir.Errs[i] != "" {
-					return pt.Inconclusivef("ingest phase %d: datapoint %s was refused: %s", pi, lines[i], ir.Errs[i])
-				}
-				if haveTsid[p.S] && tsidOf[p.S] != ir.Tsids[i] {
-					return pt.Inconclusivef("series %d changed its id", p.S)
-				}
-				tsidOf[p.S], haveTsid[p.S] = ir.Tsids[i], true
-				sent[p.S][p.T] = p.V
-			}
-			for i := range cs.Series {
-				for j := 0; j < i; j++ {
-					if haveTsid[i] && haveTsid[j] && tsidOf[i] == tsidOf[j] {
-						return pt.Inconclusivef("series %d and %d share an id", i, j)
-					}
-				}
-			}
+			return err
 		}
 		if !ph.Wait {
 			if ph.PauseMs > 0 {
@@ -588,328 +441,69 @@ func checkRec(cs *recCase, o *pt.Obs) error {
 			}
 			continue
 		}
-		stage := fmt.Sprintf("after phase %d", pi)
-		if err := waitLogged(stage); err != nil {
+		if err := e.waitLogged("after " + stage); err != nil {
 			return err
 		}
 		if pi == 0 {
-			if err := baseline(c, stage); err != nil {
+			if err := e.baseline("after " + stage); err != nil {
+				if errors.Is(err, errServerGone) {
+					return gone("baseline query")
+				}
 				return err
 			}
 		}
 		if cs.RotateAfter == pi {
 			// close the open block of every shard that holds data; wait until its WAL moved on to the next block
-			before, err := readDPWals(walDir)
+			want, err := e.rotationTargets()
 			if err != nil {
-				return pt.Inconclusivef("%v", err)
+				return err
 			}
-			want := map[string]uint64{} // shard -> block id that must be exceeded
-			for _, wf := range before {
-				if len(wf.dps) > 0 {
-					if b, ok := want[wf.shard]; !ok || wf.blockID > b {
-						want[wf.shard] = wf.blockID
-					}
-				}
-			}
-			if err := c.Call(&sut.Req{Op: "c10.blocklimit", Ints: map[string]int64{"bytes": 1}}, nil); err != nil {
-				return died("blocklimit", err)
+			if err := e.c.Call(&sut.Req{Op: "c10.blocklimit", Ints: map[string]int64{"bytes": 1}}, nil); err != nil {
+				return e.died("blocklimit", err)
 			}
 			deadline := time.Now().Add(25 * time.Second)
 			for {
-				now, err := readDPWals(walDir)
+				done, err := e.rotated(want)
 				if err != nil {
-					return pt.Inconclusivef("%v", err)
-				}
-				cur := map[string]uint64{}
-				hasOld := map[string]bool{}
-				for _, wf := range now {
-					if b, ok := cur[wf.shard]; !ok || wf.blockID > b {
-						cur[wf.shard] = wf.blockID
-					}
-				}
-				for _, wf := range now {
-					if b, ok := want[wf.shard]; ok && wf.blockID <= b {
-						hasOld[wf.shard] = true
-					}
-				}
-				done := true
-				for sh, b := range want {
-					if cur[sh] <= b || hasOld[sh] {
-						done = false
-					}
+					return err
 				}
 				if done {
 					break
 				}
-				if c.Dead() {
-					return fmt.Errorf("block rotation: server process died: %s", pt.CrashDetail(c))
+				if e.c.Dead() {
+					return gone("block rotation")
 				}
 				if time.Now().After(deadline) {
 					return pt.Inconclusivef("block rotation was not observed within 25 s")
 				}
 				time.Sleep(200 * time.Millisecond)
 			}
-			if err := c.Call(&sut.Req{Op: "c10.blocklimit", Ints: map[string]int64{"bytes": 100000000}}, nil); err != nil {
-				return died("blocklimit", err)
+			if err := e.c.Call(&sut.Req{Op: "c10.blocklimit", Ints: map[string]int64{"bytes": 100000000}}, nil); err != nil {
+				return e.died("blocklimit", err)
 			}
-			for i := range cs.Series {
-				if _, ok := want[shardOfTsid[tsidOf[i]]]; ok {
-					for t, v := range sent[i] {
-						durable[i][t] = v
-					}
-				}
-			}
-			o.Class("block_rotated_before_crash")
+			e.markDurable(want)
 		}
 	}
 	if cs.KillDelayMs > 0 {
 		time.Sleep(time.Duration(cs.KillDelayMs) * time.Millisecond)
 	}
-	if c.Dead() {
-		return fmt.Errorf("server process died before the kill: %s", pt.CrashDetail(c))
+	if e.c.Dead() {
+		return gone("before the kill")
 	}
-	c.Kill()
-
-	// ---- what the dead process left behind ----------------------------------------------------
-	ds, err := readDisk(walDir, len(cs.Series))
-	if err != nil {
-		return pt.Inconclusivef("reading data dir after the kill: %v", err)
+	e.c.Kill()
+	if err := e.postMortem(); err != nil {
+		return err
 	}
-	w := inWal(ds)
-	expect := make([]map[uint32]float64, len(cs.Series))
-	must := make([]bool, len(cs.Series))
-	nLogged, nLost, nMust := 0, 0, 0
-	inLast := map[dpKey]bool{} // sent by a phase nobody waited for
-	for _, ph := range cs.Phases {
-		if !ph.Wait {
-			for _, p := range ph.Pts {
-				inLast[dpKey{tsidOf[p.S], p.T}] = true
-			}
-		}
-	}
-	lastLogged, lastLost := 0, 0
-	multiBlockFile := false
-	for i := range cs.Series {
-		expect[i] = map[uint32]float64{}
-		for t, v := range durable[i] {
-			expect[i][t] = v
-		}
-		for t, v := range sent[i] {
-			vals := w[dpKey{tsidOf[i], t}]
-			if _, dur := durable[i][t]; dur {
-				if len(vals) > 0 {
-					return pt.Inconclusivef("series %d t=%d is in a closed block and still in a WAL file", i, t)
-				}
-				continue
-			}
-			switch {
-			case len(vals) == 0:
-				nLost++
-				if inLast[dpKey{tsidOf[i], t}] {
-					lastLost++
-				}
-			case len(vals) == 1 && vals[0] == v:
-				expect[i][t] = v
-				nLogged++
-				if inLast[dpKey{tsidOf[i], t}] {
-					lastLogged++
-				}
-			default:
-				return fmt.Errorf("the datapoint WAL holds %v for series %d (tsid %d) t=%d; sent once with value %v", vals, i, tsidOf[i], t, v)
-			}
-		}
-		must[i] = len(expect[i]) > 0 && ds.findable(i, qs, qe)
-		if must[i] {
-			nMust++
-		}
-	}
-	// nothing in the WAL that was never sent
-	for k, vals := range w {
-		found := false
-		for i := range cs.Series {
-			if haveTsid[i] && tsidOf[i] == k.tsid {
-				if _, ok := sent[i][k.t]; ok {
-					found = true
-				}
-			}
-		}
-		if !found {
-			return fmt.Errorf("the datapoint WAL holds tsid=%d t=%d values=%v which was never sent", k.tsid, k.t, vals)
-		}
-	}
-	for _, wf := range ds.wals {
-		if countBlocks(filepath.Join(walDir, wf.name)) > 1 {
-			multiBlockFile = true
-		}
-	}
-	o.Count("datapoints_logged_at_kill", int64(nLogged))
-	o.Count("datapoints_not_logged_at_kill", int64(nLost))
-	if lastLogged > 0 && lastLost > 0 {
-		o.Class("inflight_phase_partly_logged")
-	} else if lastLogged > 0 {
-		o.Class("inflight_phase_fully_logged")
-	} else if lastLost > 0 {
-		o.Class("inflight_phase_not_logged")
-	} else {
-		o.Class("no_inflight_phase")
-	}
-	if multiBlockFile {
-		o.Class("several_wal_blocks")
-	}
-	if len(ds.ttErr) > 0 {
-		o.Class("tag_tree_unreadable_after_kill")
-	}
-	shards := map[string]bool{}
-	for i := range cs.Series {
-		if haveTsid[i] {
-			shards[shardOfTsid[tsidOf[i]]] = true
-		}
-	}
-	if len(shards) > 1 {
-		o.Class("several_shards")
-	}
-	if nMust == len(cs.Series) {
-		o.Class("all_series_must_return")
-	} else if nMust > 0 {
-		o.Class("some_series_must_return")
-	} else {
-		o.Class("no_series_must_return")
-	}
-	if nMust > 0 && nLogged > 0 {
+	if e.nMust > 0 && e.nLogged > 0 {
 		o.NonTrivial()
 	}
-
-	namesLogged := map[string]bool{}
-	for n := range ds.names {
-		if !allNames[n] {
-			return fmt.Errorf("the metric-name WAL holds %q which was never sent", n)
-		}
-		namesLogged[n] = true
-	}
-
-	// ---- restart(s) and verification ------------------------------------------------------------
-	verify := func(stage string) error {
-		c2, err := sut.Start(opts)
-		if err != nil {
-			if strings.Contains(err.Error(), "did not become ready") {
-				return fmt.Errorf("%s: the server does not start on the data directory left by the crash: %v", stage, err)
-			}
-			return pt.Inconclusivef("%s: worker start: %v", stage, err)
-		}
-		c = c2
-		allMust := nMust == len(cs.Series)
-		for i := range cs.Series {
-			if !haveTsid[i] {
-				continue
-			}
-			text := fmt.Sprintf(`%s{sid=%q}`, cs.Series[i].Metric, sidOf(i))
-			mr, err := mquery(c, text, qs, qe)
-			if err != nil {
-				if errors.Is(err, sut.ErrWorkerDied) && (must[i] || len(ds.ttErr) == 0) {
-					return fmt.Errorf("%s: query %s killed the server: %s", stage, text, pt.CrashDetail(c))
-				}
-				return died(stage+": query "+text, err)
-			}
-			if mr.Err != "" || len(mr.Errors) > 0 {
-				if must[i] && allMust {
-					return fmt.Errorf("%s: query %s answers with an error although the log, names, metadata and tags of the series were on disk: %q %v", stage, text, mr.Err, mr.Errors)
-				}
-				continue
-			}
-			got := map[uint32]float64{}
-			for _, s := range mr.Series {
-				sid, ok := parseSid(s.ID)
-				if !ok || sid != sidOf(i) {
-					return fmt.Errorf("%s: query %s returned series %q", stage, text, s.ID)
-				}
-				for _, p := range s.Pts {
-					v := math.Float64frombits(p.V)
-					if _, dup := got[p.T]; dup {
-						return fmt.Errorf("%s: query %s returned t=%d twice", stage, text, p.T)
-					}
-					got[p.T] = v
-				}
-			}
-			for t, v := range got {
-				ev, ok := expect[i][t]
-				if !ok {
-					how := "was never sent"
-					if _, s := sent[i][t]; s {
-						how = "was sent but its WAL append had not completed at the kill and its block was not closed"
-					}
-					return fmt.Errorf("%s: query %s returned t=%d v=%v which %s\n  expected (closed blocks ∪ WAL at kill): %s\n  got: %s",
-						stage, text, t, v, how, fmtPts(expect[i]), fmtPts(got))
-				}
-				if ev != v {
-					hint := ""
-					if v == 2*ev {
-						hint = " (twice the value: the datapoint is stored twice)"
-					}
-					return fmt.Errorf("%s: query %s returned t=%d v=%v, logged value %v%s\n  expected: %s\n  got: %s",
-						stage, text, t, v, ev, hint, fmtPts(expect[i]), fmtPts(got))
-				}
-			}
-			if must[i] {
-				for t, v := range expect[i] {
-					if _, ok := got[t]; !ok {
-						return fmt.Errorf("%s: query %s lost t=%d v=%v whose WAL append had completed (or whose block was closed) before the kill; segment metadata and tags were on disk\n  expected: %s\n  got: %s",
-							stage, text, t, v, fmtPts(expect[i]), fmtPts(got))
-					}
-				}
-			}
-		}
-		// bare selectors: no series that was never sent
-		for name := range allNames {
-			mr, err := mquery(c, name, qs, qe)
-			if err != nil {
-				return died(stage+": query "+name, err)
-			}
-			for _, s := range mr.Series {
-				sid, ok := parseSid(s.ID)
-				known := false
-				for i := range cs.Series {
-					if ok && sid == sidOf(i) && cs.Series[i].Metric == name && haveTsid[i] {
-						known = true
-					}
-				}
-				if !known {
-					return fmt.Errorf("%s: query %s returned series %q which was never sent", stage, name, s.ID)
-				}
-			}
-		}
-		// metric names
-		var names []string
-		err = c.Call(&sut.Req{Op: "c10.mnames", Start: uint64(qs), End: uint64(qe)}, &names)
-		if err != nil {
-			var oe *sut.OpError
-			if !errors.As(err, &oe) {
-				return died(stage+": metric names", err)
-			}
-			o.Class("metric_name_listing_error")
-		} else {
-			got := map[string]bool{}
-			for _, n := range names {
-				if !allNames[n] {
-					return fmt.Errorf("%s: metric name %q is listed and was never sent", stage, n)
-				}
-				got[n] = true
-			}
-			for i := range cs.Series {
-				n := cs.Series[i].Metric
-				if must[i] && allMust && namesLogged[n] && !got[n] {
-					return fmt.Errorf("%s: metric name %q was in the name WAL at the kill and is not listed after the restart (listed: %v)", stage, n, names)
-				}
-			}
-		}
-		return nil
-	}
-	if err := verify("after restart"); err != nil {
+	if err := e.verify("after restart", opts); err != nil {
 		return err
 	}
 	if cs.SecondCrash {
 		o.Class("second_crash")
-		c.Kill()
-		if err := verify("after second kill and restart"); err != nil {
+		e.c.Kill()
+		if err := e.verify("after second kill and restart", opts); err != nil {
 			return err
 		}
 	}
